@@ -398,6 +398,50 @@ def rule_extent_pairing(ctx: Ctx):
             good = all(norm(s.value).startswith(f"{C}.full_span_end - ") for s in later)
             ctx.ob("R-C17-2", f"{qual}/extent-only-trimmed", good, f"later adjustments only trim the end ({[norm(s)[:50] for s in later]})",
                    node=later[0] if later else fn, mod=hm, nontrivial=bool(later))
+    # the same pairing for every other function that stores groups of a token scan into metadata (a scan added later for a short form, say):
+    # text taken from beyond the citation's recorded extent is text of whatever follows
+    spec_quals = {q_ for q_, _d in specs}
+    for qual, mod, fn in repo.all_funcs():
+        if mod.name not in ("helpers", "find") or qual in spec_quals:
+            continue
+        scans = [s for s in stmts_local(fn.body) if isinstance(s, ast.Assign) and isinstance(s.value, ast.Call) and dotted(s.value.func) == "match_on_tokens"
+                 and len(s.targets) == 1 and isinstance(s.targets[0], ast.Name)]
+        if not scans:
+            continue
+        LOCS = Locals(fn)
+        for sc in scans:
+            M = sc.targets[0].id
+            bad = None
+            n = 0
+            for p in enumerate_paths(fn.body):
+                evs = [ev for ev in p.events if ev[0] == "stmt"]
+                if not any(ev[1] is sc for ev in evs):
+                    continue
+                after = False
+                meta = ext = None
+                for ev in evs:
+                    s_ = ev[1]
+                    if s_ is sc:
+                        after = True
+                        continue
+                    if after and isinstance(s_, ast.Assign) and M in assigned_names(s_):
+                        break  # the name now holds another match
+                    if not after or not isinstance(s_, ast.Assign) or not isinstance(s_.targets[0], ast.Attribute):
+                        continue
+                    t = norm(s_.targets[0])
+                    uses_m = M in names_in(LOCS.expand(s_.value, s_, stop={M}))
+                    if ".metadata." in t and uses_m:
+                        meta = s_
+                    if t.split(".")[-1] in ("full_span_end", "full_span_start", "span_end") and uses_m:
+                        ext = s_
+                if meta is not None:
+                    n += 1
+                    if ext is None:
+                        bad = meta
+            if n:
+                ctx.ob("R-C17-2", f"{qual}/{M}:extent-covers-match", bad is None,
+                       f"groups of the token scan `{norm(sc.value)[:60]}` are stored into metadata on {n} path(s); the citation's extent must be extended over the "
+                       "same match on each of them, otherwise the value is text from outside the citation", node=bad or sc, mod=mod)
     # party scan: names and start are stored together
     fn = repo.need_func("helpers.add_defendant")
     C = fn.args.args[0].arg
